@@ -29,7 +29,7 @@ sys.path.insert(0, os.path.join(lib.ROOT, "gen"))
 RULE = ("truncate: edge-case strings x lengths 0..len+3 x killwords x end in {'...', '', U+2026, '--'} x leeway in "
         "{policy default, 0, 1, 5} (non-trivial = the text is actually cut); indent: strings over {a, space, \\n, "
         "\\r\\n, \\r, U+2028, \\x0b} up to length 5 + edge strings x width {0, 2, -1, '>>', ''} x first x blank "
-        "(non-trivial = >= 2 lines); center / wordcount / splitlines / wordwrap on the same strings; "
+        "(non-trivial = >= 2 lines); center / wordcount / splitlines / wordwrap on the same strings plus over-long and hyphenated words x width x break_long_words x break_on_hyphens (independently) x wrap string; "
         "filesizeformat: every power of the base +-1, 0..1100, random ints up to 10^30, both bases; int / float: "
         "several representative values for each of the 15 value kinds (numeric spellings, inf, nan, huge, bool, None, "
         "containers); distinct = (filter, arguments, input).")
@@ -221,30 +221,38 @@ def tie_lines(ctx, env):
             ctx.validated()
     # wordwrap: composition over splitlines (model's do_wordwrap with textwrap.wrap as the oracle it is)
     ws_chars = " \t\n\r\x0b\x0c\x1c\x1d\x1e\x85   "
-    for s in EDGE + LINES + small_strings(ctx)[::7]:
+    long_words = ["see " + "x" * 30 + " end", "a-very-long-hyphenated-compound-word and more",
+                  "short https://example.com/a/very/long/path/without/any/space tail", "x" * 25, "ab-" * 12 + "z",
+                  "tab\tseparated-" + "y" * 18, "é" * 14 + " ü-" + "ß" * 11]
+    for s in EDGE + LINES + long_words + small_strings(ctx)[::7]:
         for width in (1, 5, 10, 79):
-            for blw in (True, False):
-                for wrapstring in (None, "\n", "\r\n", " | "):
-                    case = {"filter": "wordwrap", "s": s, "width": width, "break_long_words": blw, "wrapstring": wrapstring}
+            # the two flags vary independently (a crosswise mix-up only shows when they differ)
+            for blw, boh in ((True, True), (True, False), (False, True), (False, False)):
+                for wrapstring in ((None, "\n", "\r\n", " | ") if blw == boh else (None, "\r\n")):
+                    case = {"filter": "wordwrap", "s": s, "width": width, "break_long_words": blw,
+                            "break_on_hyphens": boh, "wrapstring": wrapstring}
                     ctx.count("wordwrap")
                     try:
-                        r = env.call_filter("wordwrap", s, (width, blw, wrapstring))
+                        r = env.call_filter("wordwrap", s, (width, blw, wrapstring, boh))
                     except Exception as ex:  # noqa: BLE001
                         ctx.case()
                         ctx.reject(case, f"raised {type(ex).__name__}", None)
                         continue
                     wsx = "\n" if wrapstring is None else wrapstring
                     pieces = [textwrap.wrap(line, width=width, expand_tabs=False, replace_whitespace=False,
-                                            break_long_words=blw, break_on_hyphens=True) for line in s.splitlines()]
+                                            break_long_words=blw, break_on_hyphens=boh) for line in s.splitlines()]
                     model = wsx.join(wsx.join(p) for p in pieces)
                     strip = lambda x: "".join(c for c in x if c not in ws_chars and not c.isspace())  # noqa: E731
                     of = None
                     if wsx.strip() == "" and strip(r) != strip(s):
                         of = "non-whitespace text is not preserved in order"
-                    elif blw and wsx in ("\n", "\r\n") and any(len(l) > width for l in r.split(wsx)):
-                        of = "a line is longer than the width although long words may be broken"
+                    elif blw and wsx in ("\n", "\r\n"):
+                        too_long = [l for l in r.split(wsx) if len(l) > width]
+                        if too_long:
+                            of = (f"a line of {len(too_long[0])} characters at width {width} although long words "
+                                  "may be broken (break_long_words=true)")
                     nontriv = sum(len(p) for p in pieces) >= 2
-                    ctx.case(key=("wordwrap", s, width, blw, wrapstring) if nontriv else None)
+                    ctx.case(key=("wordwrap", s, width, blw, boh, wrapstring) if nontriv else None)
                     if of:
                         ctx.reject(case, of, None)
                     elif r != model:
